@@ -70,6 +70,25 @@ def go (e : Env) (s : St) (started : Bool) (toks : List String) (acc : List Stri
       match parseNat t, parseNat i with
       | some t, some i => if started then "bad-op" else go { e with vars := e.vars ++ [(t, i)] } s false rest acc
       | _, _ => "bad-op"
+    | ["pc", b, v, _called, k, names] =>
+      -- another goroutine calls an already mocked method while this one applies further mocks: for the model the
+      -- history is the sequence of those mocks (the calls do not change the state)
+      let s := start e s
+      match parseNat b, parseNat v, parseNat k with
+      | some b, some v, some k =>
+        if v ≥ e.vars.length ∨ k ≠ s.ncb ∨ ¬ (s.blds b).alive then "bad-op" else
+        let rec apply (s : St) (e : Env) (ns : List String) (k : Nat) (res : String) : Option (St × Env × String) :=
+          match ns with
+          | [] => some (s, e, res)
+          | m :: r =>
+            match step Cfg.fixed s (.mock b v m .ap (sigOf e (s.vtyp v) m)) with
+            | none => none
+            | some (s', .ok) => apply s' { e with created := k :: e.created } r (k + 1) res
+            | some (s', .panic c) => apply s' e r (k + 1) s!"panic:{c}"
+        match apply s e (names.splitOn ",") k "ok" with
+        | none => "unmodelled"
+        | some (s', e', res) => go { e' with maxB := max e'.maxB b } s' true rest (res :: acc)
+      | _, _, _ => "bad-op"
     | kind :: b :: v :: m :: k :: more =>
       let s := start e s
       match parseNat b, parseNat v, parseNat k with
